@@ -21,7 +21,7 @@ ASSUMPTIONS = ["models/membank.py: lockable locations are writeable only while t
                "hold exactly the requested bytes"]
 EXHAUSTIVE = {"quick": False, "thorough": False}
 REQUIRED_ANCHORS = {"all": ["writes_ok", "refused_readonly", "length_rejected", "faults_injected", "must_raise_cases",
-                            "unit_variants", "relock_checked", "history_writes", "first_use_writes", "interleaved_pairs"]}
+                            "unit_variants", "relock_checked", "history_writes", "first_use_writes", "interleaved_pairs", "abandoned_sequences"]}
 SHARD_TIMEOUT = {"quick": 600, "thorough": 3000}
 BANKS = ["0", "0L", "1", "202", "203", "204", "205", "206", "207"]
 DOCUMENTED = ("MemoryLocationNotWriteable", "MemoryWriteFailure", "ResponseError")
@@ -562,6 +562,48 @@ def run_refusals(res):
                 res.violation("C10/refusal/sent-commands", f"{what}: {bus.n_commands} commands were sent before refusing", {"case": what})
         except Exception as e:
             res.violation(f"C10/refusal/wrong-exception/{type(e).__name__}", f"{what} raised {type(e).__name__}: {e}", {"case": what})
+    # numbers that the value cannot hold exactly: write() either refuses before anything is sent, or what the unit then holds
+    # decodes to the number that was asked for - "reported as written" never covers a different number
+    import decimal
+    import fractions
+    import random
+    import dali.memory.location as loc
+    r = random.Random(0xC10)
+    odd = [1.5, 1500.7, -0.5, 0.999, 254.5, decimal.Decimal("2.5"), decimal.Decimal("65535.9"), fractions.Fraction(7, 2), 1e300,
+           float("nan"), float("inf"), "12", b"\x01", [1], (1,), None, 1 + 0j, 3.0, decimal.Decimal(4), fractions.Fraction(6, 2)]
+    for bk in BANKS:
+        bank_obj, values = values_of(bk)
+        for name, cls, row in values:
+            if not row.writable or name == "LockByte" or not (isinstance(cls, type) and issubclass(cls, loc.NumericValue)):
+                continue
+            for v in odd:
+                unit, other, bank, ob, addr = make_unit(r, bk, r.choice(["gear", "device", "int"]), r.choice([0xFF, 0x55]))
+                before = list(bank.image)
+                bus = Bus([unit, other], bound=400)
+                res.evaluations += 1
+                res.hit("odd_numbers_checked")
+                try:
+                    out = attempt(bus, cls.write(addr, v))
+                except Exception as e:
+                    out = ("exc", e)
+                back = None
+                wit = {"value": name, "bank": bk, "number": repr(v)}
+                if out[0] == "exc":
+                    if bus.n_commands:
+                        res.violation("C10/odd-number/refused-late", f"{name}.write({v!r}) raised {type(out[1]).__name__} after "
+                                      f"{bus.n_commands} commands had been sent", wit)
+                    continue
+                stored = bytes(bank.image[row.first:row.last + 1])
+                try:
+                    back = cls.raw_to_value(stored)
+                    same = (back == v) is True
+                except Exception:
+                    same = False
+                if not same:
+                    res.violation("C10/odd-number/stored-a-different-number", f"{name}.write({v!r}) returned normally; the unit now "
+                                  f"holds {stored.hex()} which reads as {back!r}", wit)
+                elif not image_ok(bank, before, row, stored):
+                    res.violation("C10/odd-number/other-location-changed", f"{name}.write({v!r}) changed locations outside the value", wit)
 
 
 def run_interleaved(desc, seed, res):
@@ -584,6 +626,7 @@ def run_interleaved(desc, seed, res):
             kw["force_unlock"] = True
         return Bus([unit, other], bound=800), cls.write_raw(addr, raw, **kw), lambda: list(bank.image)
     pairs.differential(res, "C10", rng(seed, "C10", "interleaved"), {"write_raw": mk_write}, desc["n"])
+    pairs.abandon(res, "C10", rng(seed, "C10", "abandon"), {"write_raw": mk_write}, desc["n"])
 
 
 def run_shard(desc, tier, seed):
